@@ -312,6 +312,7 @@ def u_sz():
     u.add(A, 1, 62, [], clen=0)                                             # 25 minimal
     u.add(A, 1, 63, [["t", "x"]], clen=65535)                               # 26 content length just below 2^16
     u.add(B, 1, 64, [], clen=65536 + 40)                                    # 27 content longer than 2^16 bytes
+    u.add(A, 20000, 51, [], clen=10)                                        # 28 a second ephemeral event of the same author and kind
     return u.finish()
 
 
@@ -519,6 +520,18 @@ def u_many():
     return u.finish()
 
 
+def u_c18b():
+    """An event with several hundred tags: two multi-letter (not indexed) tags first, then 260 p tags with distinct values -
+    removal has to take out every tag-index entry it put in, however many there are and whatever stands before them."""
+    u = Universe("c18b", nauthors=2, nabsent=1)
+    A, B = 1, 2
+    many = [["client", "x"], ["alt", "y"]] + [["p", "v%03d" % i] for i in range(260)] + [["t", "last"]]
+    u.add(A, 1, 10, many, clen=5)                                      # 1
+    u.add(B, 1, 11, [["p", "v259"], ["t", "last"]], clen=6)            # 2 shares the last values
+    u.add(A, 1, 12, [], clen=7)                                        # 3
+    return u.finish()
+
+
 def u_c11b():
     """Deletion requests with several targets where an earlier-listed address is already covered, and addresses
     whose d value contains the ':' separator."""
@@ -628,7 +641,7 @@ def u_exp(now):
     return u.finish()
 
 
-CURATED = dict(c09d=u_c09d, many=u_many, c09t=u_c09t, c10e=u_c10e, c12y=u_c12y, c14b=u_c14b, c10d=u_c10d, qv=u_qv, c09c=u_c09c, c10c=u_c10c, c16=u_c16, c11b=u_c11b, c12x=u_c12x, c09b=u_c09b, c10b=u_c10b, sz=u_sz, core=u_core, c09=u_c09, c10=u_c10, c11=u_c11, c18=u_c18, q=u_q)
+CURATED = dict(c18b=u_c18b, c09d=u_c09d, many=u_many, c09t=u_c09t, c10e=u_c10e, c12y=u_c12y, c14b=u_c14b, c10d=u_c10d, qv=u_qv, c09c=u_c09c, c10c=u_c10c, c16=u_c16, c11b=u_c11b, c12x=u_c12x, c09b=u_c09b, c10b=u_c10b, sz=u_sz, core=u_core, c09=u_c09, c10=u_c10, c11=u_c11, c18=u_c18, q=u_q)
 
 
 # ------------------------------------------------------------------------------------------------
